@@ -28,7 +28,7 @@ CHECKS = {
   "(all slice/index expressions incl. f[0]) and its line evaluation goes through matchTags' contract; its block/line structure is compared with go/build/constraint by a bounded stand-in. ShouldBuild evaluates options only for a line whose first field is exactly +build; ScanDir scans a directory entry only if it is a regular file whose name does not start with _, ends in .go and passes MatchFile's rule.",
   "assumed: extern contracts for strings.Index/Split/Fields/HasPrefix, bytes.IndexByte/TrimSpace/HasPrefix, unicode.IsLetter/IsDigit (uninterpreted), UTF-8 decoding (uninterpreted runeAt/runeW); "
   "nil tag maps are outside the contracts (requires tags != nil); MatchFile's specification is close to the code (spec-near) except for the OS-selection rule; "
-  "bounded: ShouldBuild vs go/build/constraint over blocks of up to 4 (quick) / 6 (thorough) lines from a 10-line vocabulary (incl. a comment that merely starts with +build and a term with a trailing comma) and 4 tag sets",
+  "bounded: ShouldBuild vs go/build/constraint over blocks of up to 4 (quick) / 6 (thorough) lines from a 13-line vocabulary (incl. a comment that merely starts with +build, a term with a trailing comma, a whitespace-only line and CRLF lines) and 4 tag sets",
   "contract-based deductive verification (VCs over go/ssa incl. a recursive spec function and a rune-iteration invariant, z3/cvc5) plus a labelled bounded stand-in for ShouldBuild's block structure"),
  "C06": ("5 C06",
   "Per-call contracts over a ghost lock state fdMode[descriptor]: filelock.lock returns nil only after a successful flock with the requested type (EINTR retried, failures leave the state unchanged); "
